@@ -15,6 +15,7 @@ import GqlVerif.Proofs.C01MixedG
 import GqlVerif.Proofs.ModuleOkInputsMore
 import GqlVerif.Proofs.ModuleOkInputsClasses
 import GqlVerif.Proofs.C01NestedW
+import GqlVerif.Proofs.C01NestedAbsW
 open GqlVerif.C03
 #print axioms ok_iff_accepts
 #print axioms null_at_non_null_rejected
@@ -99,3 +100,6 @@ open GqlVerif.C03
 #print axioms GqlVerif.C01N.nested_precise_iff
 #print axioms GqlVerif.C01N.nx_precise
 #print axioms GqlVerif.C01N.nx2_precise
+-- NestedAbsOp (P46)
+#print axioms GqlVerif.C01NA.nestedabs_precise_iff
+#print axioms GqlVerif.C01NA.na_precise
